@@ -20,7 +20,7 @@ SHARDS_PER_JOB = 1
 
 def gen_cases(tier, seed):
     rng = gen.rng_for(seed, "c20", tier)
-    n = 96 if tier == "quick" else 4000
+    n = 192 if tier == "quick" else 4000
     cases = []
     for k in range(n):
         cases.append({"epochs": int(rng.integers(1, 5)), "batches": int(rng.integers(1, 7)), "bs": int(rng.integers(2, 6)),
